@@ -12,7 +12,7 @@ from hypothesis import strategies as st
 
 from .. import model_group as MG
 from ..core import Verdict, Violation
-from .c09 import lib, real_notes, show, corpus_streams, stream_domain_problem
+from .c09 import lib, real_notes, show, corpus_streams, stream_domain_problem, as_form, FORM_NAMES
 
 ID = "C10"
 LEVEL = "exploration"
@@ -128,13 +128,15 @@ def roundtrip(L, notes, include, extra_off_pairs=((None,), (("drop", "drop"),)),
             h, t = pair if pair else ("raise", "raise")
             exp = [notes[i] for i in idx if not (h == "drop" and i in oh) and not (t == "drop" and i in ot)]
             plans.append((True, pair, exp))
-        for join, pair, exp in plans:
+        for pi, (join, pair, exp) in enumerate(plans):
+            # the stream is an Iterable[Note]: list, one-shot iterator, NoteData object and generator in turn
+            fi = pi + MG.MODES.index(mode)
 
-            def opts(mode=mode, join=join, pair=pair):
-                return f"include={'all (omitted)' if include is None else include!r} same_beat={mode} join={join} orphan policies={'omitted' if pair is None else pair}"
+            def opts(mode=mode, join=join, pair=pair, fi=fi):
+                return (f"stream passed{FORM_NAMES[fi % 4]}, " if fi % 4 else "") + f"include={'all (omitted)' if include is None else include!r} same_beat={mode} join={join} orphan policies={'omitted' if pair is None else pair}"
 
             try:
-                g = list(L.group_notes(rnotes, **group_kwargs(L, include, mode, join, pair)))
+                g = list(L.group_notes(as_form(rnotes, fi), **group_kwargs(L, include, mode, join, pair)))
             except L.Orphaned as e:
                 raise Violation(f"group_notes on {show(notes)} with {opts()} raised OrphanedNoteException({e}) although no orphan falls under a RAISE policy")
             except Exception as e:  # not documented: let it escape, but name the input
@@ -184,8 +186,8 @@ def split_problem(case):
             holds.setdefault(c, []).append((r, tr))
     for c, hs in holds.items():
         hs.sort()
-        if any(b[0] <= a[1] for a, b in zip(hs, hs[1:])):
-            return "holds nested or touching on one column"
+        if len({tr for _r, tr in hs}) != len(hs):
+            return "two tails on one position"
         if any((tr, c) in taken for _r, tr in hs):
             return "a note on a hold's tail position"
     if case["items"] != sorted(case["items"], key=lambda x: (x[0], x[1])):
@@ -217,6 +219,11 @@ def check_split(L, case):
 
     rgroups = [[real(it) for it in g] for g in groups]
     splitting = MG.splitting_notes(groups)
+    # a note-with-tail whose head lies inside another one on its column: raising and passing it through (head and tail)
+    # are unambiguous; what "dropping" it means for its own tail is not stated, so under that policy its tail may be
+    # present or absent (everything else is still judged)
+    inner_tails = {(it[6], it[2], it[4]) for it in items if it[0] == "W" and tuple(it[1:6]) in splitting}
+    nested = bool(inner_tails)
     flat = MG.flat_notes(groups)
     by_type = layout == "by_type"
     if not by_type:
@@ -241,7 +248,11 @@ def check_split(L, case):
             continue
         need(not (eff == "raise" and splitting), lambda: f"{what()} did not raise although {fmt(splitting)} lie(s) inside a joined hold on the same column")
         exp = flat if eff != "drop" else [x for x in flat if x not in splitting]
-        compare(plain(L, raw, what), exp, by_type, what, tails_modulo_keysound=True)
+        got = plain(L, raw, what)
+        if nested and eff == "drop":
+            exp = [x for x in exp if not (x[2] == MG.TAIL and (x[0], x[1], x[3]) in inner_tails)]
+            got = [x for x in got if not (x[2] == MG.TAIL and (x[0], x[1], x[3]) in inner_tails)]
+        compare(got, exp, by_type, what, tails_modulo_keysound=True)
     nholds = sum(1 for it in items if it[0] == "W")
     labs = ["layout:" + layout]
     if splitting:
@@ -254,6 +265,8 @@ def check_split(L, case):
         labs.append("keysounded-hold")
     if nholds >= 2:
         labs.append("holds>=2")
+    if nested:
+        labs.append("nested-joined-holds")
     return Verdict(nontrivial=nholds >= 1 and (bool(splitting) or "keysounded-hold" in labs), labels=labs, evals=n)
 
 
@@ -370,18 +383,22 @@ def s_split(draw):
     items = []
     for c in range(cols):
         cells = draw(st.lists(st.sampled_from(SPLIT_CELLS), min_size=nrows, max_size=nrows))
+        nest = draw(st.integers(0, 4)) == 0  # this column may carry a hold that starts inside another one
         r = 0
-        blocked = -1  # tail row of the hold being laid down on this column
+        blocked = -1  # last tail row of the holds laid down on this column
+        tailrows = set()
         while r < nrows:
             t = cells[r]
-            if r == blocked:
+            if r in tailrows:
                 r += 1
                 continue
-            if t == "h" and r > blocked and r < nrows - 1:
-                tr = draw(st.integers(r + 1, nrows - 1))
+            free = [x for x in range(r + 1, nrows) if x not in tailrows]
+            if t == "h" and (r > blocked or nest) and free:
+                tr = draw(st.sampled_from(free))
                 ks = draw(MG.KEYSOUND)
                 items.append([r, c, draw(st.sampled_from(["2", "2", "4"])), ks, tr])
-                blocked = tr
+                blocked = max(blocked, tr)
+                tailrows.add(tr)
             elif t not in ("0", "h"):
                 items.append([r, c, t, draw(MG.KEYSOUND), None])
             r += 1
